@@ -128,4 +128,7 @@ var Registry = map[string]func(c *Ctx, arg string) error{
 	"config": func(c *Ctx, arg string) error {
 		return RunConfig(c)
 	},
+	"wire": func(c *Ctx, arg string) error {
+		return RunWire(c, arg)
+	},
 }
